@@ -225,23 +225,33 @@ def _content_case(vals, acc):
     kind, items, seed = vals
     obj, raw = make_content(kind, items, seed)
     acc.nontrivial(repr((kind, items)))
-    d = os.path.join(tmpdir(), 'content')
+    # a directory of this case's own, missing at the first call and present at the second
+    # (so that a replay in a fresh process sees exactly the same two situations)
+    d = os.path.join(tmpdir(), 'content-%s-%s' % (kind, items))
+    shutil.rmtree(d, ignore_errors=True)
     try:
-        p = fileutils.write_to_tempfile(obj, path=d)
-    except Exception as e:
-        acc.fail('write_to_tempfile-content:%s' % kind, {'content_kind': kind, 'items': items,
-                                                         'got': 'raises ' + type(e).__name__},
-                 {'content': [kind, items, seed]})
-        return
-    try:
-        with open(p, 'rb') as f:
-            got = f.read()
+        for situation in ('directory-missing', 'directory-present'):
+            try:
+                p = fileutils.write_to_tempfile(obj, path=d)
+            except Exception as e:
+                acc.fail('write_to_tempfile-content:%s' % kind,
+                         {'content_kind': kind, 'items': items, 'situation': situation,
+                          'got': 'raises ' + type(e).__name__},
+                         {'content': [kind, items, seed]})
+                return
+            try:
+                with open(p, 'rb') as f:
+                    got = f.read()
+            finally:
+                os.unlink(p)
+            if got != raw:
+                acc.fail('write_to_tempfile-content:%s' % kind,
+                         {'content_kind': kind, 'items': items, 'situation': situation,
+                          'bytes_expected': len(raw), 'bytes_in_file': len(got)},
+                         {'content': [kind, items, seed]})
+                return
     finally:
-        os.unlink(p)
-    if got != raw:
-        acc.fail('write_to_tempfile-content:%s' % kind,
-                 {'content_kind': kind, 'items': items, 'bytes_expected': len(raw), 'bytes_in_file': len(got)},
-                 {'content': [kind, items, seed]})
+        shutil.rmtree(d, ignore_errors=True)
 
 
 PATH_PARTS = ['new', 'dir', 'link', 'dangling', 'file', '..', '.', 'new2']
